@@ -254,6 +254,10 @@ def window(R, rep):
         args = [tb.operand(a) for a in u["args"]]
         cand = [a for a in args if "next(" in show(a, 0) and (any(isinstance(x, tuple) and len(x) == 3 and x[0] == "field" and x[2] in ("operation", "1", "date")
                                                                    for x in subterms(a)) or (isinstance(a, tuple) and a and a[0] == "some"))]
+        # the premise (visited or not depending on position) holds only for an iterator positioned by the sale's index
+        # (skip / slice from an index); a scan over ALL lines sees the sale's whole day whatever the line order
+        cand = [a for a in cand if any(isinstance(x, tuple) and x and x[0] == "call" and parse_callee(x[1])[2] in ("skip", "index", "get", "split_at", "nth", "skip_while")
+                                        for x in subterms(a))]
         if not cand:
             continue
         elo = -INF
